@@ -2,6 +2,9 @@ import NdnProofs.Props.C08
 import NdnGen.C08
 import NdnProofs.Props.TlvVarGen
 import NdnGen.TlvVar
+import NdnProofs.Props.TlvModelGen
+import NdnProofs.Props.TlvModelParseGen
+import NdnGen.TlvModelFields
 #print axioms Ndn.C08.announced_length_exact
 #print axioms Ndn.C08.enc_wellformed
 #print axioms Ndn.C08.writeTlNum_shortest
@@ -34,3 +37,23 @@ import NdnGen.TlvVar
 #print axioms Ndn.TlvVarGen.parse_tl_num_eq
 #print axioms Ndn.TlvVarGen.parse_and_check_tl_eq
 #print axioms Ndn.TlvVarGen.shrink_length_eq
+#print axioms Ndn.TlvModelGen.all_translated
+#print axioms Ndn.TlvModelGen.uint_encoded_length_eq
+#print axioms Ndn.TlvModelGen.uint_encoded_length_none
+#print axioms Ndn.TlvModelGen.uint_encoded_length_neg
+#print axioms Ndn.TlvModelGen.uint_encode_into_eq
+#print axioms Ndn.TlvModelGen.uint_encode_into_none
+#print axioms Ndn.TlvModelGen.uint_two_pass
+#print axioms Ndn.TlvModelGen.bool_encoded_length_eq
+#print axioms Ndn.TlvModelGen.bool_encode_into_eq
+#print axioms Ndn.TlvModelGen.bool_encode_into_absent
+#print axioms Ndn.TlvModelGen.bytes_encoded_length_eq
+#print axioms Ndn.TlvModelGen.str_encoded_length_eq
+#print axioms Ndn.TlvModelGen.bytes_encode_into_eq
+#print axioms Ndn.TlvModelGen.str_encode_into_eq
+#print axioms Ndn.TlvModelGen.bytes_encode_into_none
+#print axioms Ndn.TlvModelGen.parse_translated
+#print axioms Ndn.TlvModelGen.uint_parse_from_eq
+#print axioms Ndn.TlvModelGen.bool_parse_from_eq
+#print axioms Ndn.TlvModelGen.bytes_parse_from_eq
+#print axioms Ndn.TlvModelGen.str_parse_from_eq
